@@ -604,3 +604,8 @@ def check_leaf_origin(ctx, W, leaf, NEW, loc):
             why = "result of fill() is not checked"
     ctx.check("own-nonce", "create-nonce/random-and-checked", good, "nonce bytes are the out-parameter of SecureRandom::fill, result unwrapped",
               "create_nonce does not return checked fresh random bytes: " + why, ctx.loc(cn))
+
+
+def fixture(fctx):
+    import fixture_checks
+    return fixture_checks.diverge_alive(fctx)
